@@ -24,6 +24,10 @@ package main
 //
 // Directed scenarios (harness/o_search_directed.go): internal dates / Date headers on and around midnight in several
 // zones with keys derived from them; large mailboxes (sizes coprime to any worker count) on the parallel server.
+// harness/o_search_folds.go: folded header fields (every generated message draws its folds from there) and the
+// scenario `folds` (search strings that span / touch / imitate every fold of a Subject From To Cc Bcc HEADER field).
+// The header claimed for each message (hdr) is checked against the Lean model's derivation from the stored literal
+// (judge-c15-hdr: C13's entry parser + Search.unfold = mergeMultiline).
 //
 // O's view is what O itself reports (FETCH 1:* (UID FLAGS), asked twice so that pending updates are flushed, and once
 // more at the end: a world whose view moved is discarded). With `hold`/`barrier` after an expunge by W the view still
@@ -86,6 +90,8 @@ type c15Msg struct {
 	// learnt from the server
 	UID   int
 	Gluon string
+	// generation only (not part of the script line): where the values of Hdr stand for a line break of the literal
+	folds []c15FoldRef
 }
 
 func c15HexOrTilde(b []byte) string {
@@ -287,6 +293,9 @@ type c15World struct {
 	expunged     int      // EXPUNGE responses W received
 	msgLits      []string // readable form of the appended messages (for reports)
 	goneInView   int      // messages of O's view that are no longer in the mailbox
+	msgs         []*c15Msg // the appended messages (header claims are checked by judge-c15-hdr)
+	view         []FetchedMsg
+	hdrAnswers   []string
 	goneAnswered int      // answers that name such a message
 }
 
@@ -352,6 +361,7 @@ func (x *c15Exec) appendMsg(m *c15Msg) error {
 		return fmt.Errorf("no X-Pm-Gluon-Id for uid %d: %v", m.UID, rep.Untagged)
 	}
 	x.msgs = append(x.msgs, m)
+	x.world.msgs = x.msgs
 	x.world.msgLits = append(x.world.msgLits, fmt.Sprintf("uid %d flags (%s) internaldate %q literal %s", m.UID, strings.Join(m.Flags, " "),
 		m.Date.Go().Format("02-Jan-2006 15:04:05 -0700"), strconv.Quote(string(m.Lit))))
 	return nil
@@ -524,6 +534,7 @@ func runC15World(sys *Sys, mbox string, lines []string) (*c15World, error) {
 			return err
 		}
 		x.world.viewLen = len(x.view)
+		x.world.view = x.view
 		// which messages of O's view are gone from the mailbox (W's view is current)
 		wv, rep := x.w.FetchAll()
 		if rep.Err != nil {
@@ -564,7 +575,7 @@ func runC15World(sys *Sys, mbox string, lines []string) (*c15World, error) {
 			if x.o, err = sys.Dial("o"); err != nil {
 				return x.world, err
 			}
-			x.o.Timeout = 4 * time.Second
+			x.o.Timeout = 8 * time.Second
 			if rep := x.o.Login("user"); rep.Status != "OK" {
 				return x.world, fmt.Errorf("login: %v", rep)
 			}
@@ -748,44 +759,60 @@ func (g *c15Gen) msg() *c15Msg {
 			m.Flags = append(m.Flags, f)
 		}
 	}
+	// every field is a list of tokens; c15BuildValue (o_search_folds.go) decides where the value is folded and how
+	// (CRLF + blanks / tabs, several folds, right after the colon, inside a word, white space around the break) and
+	// knows by construction what Header.Get answers for it
 	type field struct {
-		name  string
-		parts []string
+		name string
+		v    c15Value
 	}
 	var fields []field
-	add := func(name string, parts ...string) { fields = append(fields, field{name, parts}) }
-	add("From", Pick(r, c15People))
+	add := func(name string, v c15Value) { fields = append(fields, field{name, v}) }
+	tame := func(s string, pct int) c15Value { return c15BuildValue(r, strings.Split(s, " "), pct, false, false) }
+	people := func(lo, hi int) c15Value {
+		var toks []string
+		n := r.Range(lo, hi)
+		for i := 0; i < n; i++ {
+			p := strings.Split(Pick(r, c15People), " ")
+			if i < n-1 {
+				p[len(p)-1] += ","
+			}
+			toks = append(toks, p...)
+		}
+		return c15BuildValue(r, toks, 30, true, false)
+	}
+	add("From", tame(Pick(r, c15People), 25))
 	// Date
 	sent := g.time()
 	switch {
 	case g.odd && r.Chance(1, 6):
-		add("Date", Pick(r, []string{"garbage", "yesterday at noon"}))
+		add("Date", tame(Pick(r, []string{"garbage", "yesterday at noon"}), 0))
 	case r.Chance(1, 3):
-		add("Date", sent.Go().Format("02 Jan 2006 15:04:05 -0700"))
+		add("Date", tame(sent.Go().Format("02 Jan 2006 15:04:05 -0700"), 8))
 		m.Sent = &sent
 	default:
-		add("Date", sent.Go().Format("Mon, 02 Jan 2006 15:04:05 -0700"))
+		add("Date", tame(sent.Go().Format("Mon, 02 Jan 2006 15:04:05 -0700"), 8))
 		m.Sent = &sent
 	}
 	if r.Chance(4, 5) {
-		add("To", Pick(r, c15People))
+		add("To", people(1, 3))
 		if g.odd && r.Chance(1, 5) {
-			add("To", Pick(r, c15People))
+			add("To", people(1, 2))
 		}
 	}
 	if r.Chance(2, 5) {
-		add("Cc", Pick(r, c15People))
+		add("Cc", people(1, 3))
 	}
 	if r.Chance(1, 5) {
-		add("Bcc", Pick(r, c15People))
+		add("Bcc", people(1, 2))
 	}
 	if r.Chance(9, 10) {
 		w := g.words(1, 4)
-		if len(w) > 2 && r.Bool() {
-			add("Subject", strings.Join(w[:2], " "), strings.Join(w[2:], " "))
-		} else {
-			add("Subject", strings.Join(w, " "))
+		if r.Chance(1, 8) {
+			// a long subject: far beyond the 78 columns at which mail software folds
+			w = append(w, g.words(10, 24)...)
 		}
+		add("Subject", c15BuildValue(r, w, 35, true, true))
 	}
 	nrec := 0
 	if r.Chance(1, 2) {
@@ -795,12 +822,12 @@ func (g *c15Gen) msg() *c15Msg {
 		}
 	}
 	for i := 0; i < nrec; i++ {
-		add("Received", "from "+Pick(r, c15Words)+".example", "by mx"+strconv.Itoa(i)+".example; "+Pick(r, c15Words))
+		add("Received", c15BuildValue(r, []string{"from", Pick(r, c15Words) + ".example", "by", "mx" + strconv.Itoa(i) + ".example;", Pick(r, c15Words)}, 50, true, false))
 	}
 	if r.Chance(1, 2) {
-		add("X-Tag", strings.Join(g.words(1, 2), " "))
+		add("X-Tag", c15BuildValue(r, g.words(1, 3), 30, true, true))
 		if g.odd && r.Chance(1, 3) {
-			add("X-Tag", strings.Join(g.words(1, 2), " "))
+			add("X-Tag", c15BuildValue(r, g.words(1, 2), 30, true, false))
 		}
 	}
 	// From stays first (gluon inserts its id header in front of the first field), the rest is shuffled
@@ -809,13 +836,16 @@ func (g *c15Gen) msg() *c15Msg {
 		fields[i], fields[j] = fields[j], fields[i]
 	}
 	var lit []byte
-	for _, f := range fields {
+	for i, f := range fields {
 		name := f.name
 		if r.Chance(1, 4) {
 			name = c15CaseMix(r, name)
 		}
-		lit = append(lit, name+": "+strings.Join(f.parts, "\r\n ")+"\r\n"...)
-		m.Hdr = append(m.Hdr, [2]string{name, strings.Join(f.parts, " ")})
+		lit = append(lit, name+":"+f.v.raw...)
+		m.Hdr = append(m.Hdr, [2]string{name, f.v.val})
+		for j, o := range f.v.folds {
+			m.folds = append(m.folds, c15FoldRef{hdr: i, off: o, raw: f.v.rawSeps[j], wid: f.v.widths[j]})
+		}
 	}
 	lit = append(lit, "\r\n"...)
 	if !r.Chance(1, 8) {
@@ -853,7 +883,9 @@ func c15IsAtomSafe(b []byte) bool {
 		return false
 	}
 	for _, c := range b {
-		if c <= 0x20 || c >= 0x7f || strings.ContainsRune("(){%*\"\\]", rune(c)) {
+		// `[` is an ATOM-CHAR of RFC 3501 that gluon's parser refuses (known finding K-lbracket-atom, property C10): the
+		// model starts behind the parser, so such a string is sent quoted or as a literal
+		if c <= 0x20 || c >= 0x7f || strings.ContainsRune("(){%*\"\\][", rune(c)) {
 			return false
 		}
 	}
@@ -922,21 +954,59 @@ func (k *c15KeyGen) needle() string {
 	return s
 }
 
-func (k *c15KeyGen) strKey(name string) {
-	raw, ok := k.enc(k.needle())
-	if !ok {
-		raw = []byte("foo")
+// the string of a header-string / BODY / TEXT key: half of the time taken from the values of the generated messages
+// (o_search_folds.go: spanning a fold, on its edge, look-alikes of the raw header block), else from the word lists
+func (k *c15KeyGen) needleFor(field string) string {
+	if len(k.g.msgs) > 0 && k.r.Chance(1, 2) {
+		if s, ok := k.msgNeedle(field); ok {
+			return s
+		}
 	}
+	return k.needle()
+}
+
+// records what the command's decoder makes of the raw key bytes
+func (k *c15KeyGen) noteDecoded(raw []byte) {
 	d, dok := k.dec(raw)
 	if !dok {
 		k.dectab[c15HexOrTilde(raw)] = "!"
 	} else if string(d) != string(raw) {
 		k.dectab[c15HexOrTilde(raw)] = c15HexOrTilde(d)
 	}
+}
+
+// BCC CC FROM SUBJECT TO BODY TEXT with the given raw key bytes
+func (k *c15KeyGen) strKeyWith(name string, raw []byte) {
+	k.noteDecoded(raw)
 	k.kw(strings.ToUpper(name))
 	k.emit(" ")
 	k.astring(raw)
 	k.keys = append(k.keys, name+":"+c15HexOrTilde(raw))
+}
+
+// HEADER <field> <raw>
+func (k *c15KeyGen) headerKeyWith(field string, raw []byte) {
+	k.noteDecoded(raw)
+	k.kw("HEADER")
+	k.emit(" ")
+	k.astring([]byte(field))
+	k.emit(" ")
+	k.astring(raw)
+	k.keys = append(k.keys, "header:"+c15HexOrTilde([]byte(field))+":"+c15HexOrTilde(raw))
+}
+
+func (k *c15KeyGen) strKey(name string) {
+	field := name
+	if name == "body" {
+		field = "-" // no field of that name: the word lists
+	} else if name == "text" {
+		field = "" // any field: TEXT reads the raw literal, where the folds are line breaks
+	}
+	raw, ok := k.enc(k.needleFor(field))
+	if !ok {
+		raw = []byte("foo")
+	}
+	k.strKeyWith(name, raw)
 }
 
 func (k *c15KeyGen) dayKey(name string) {
@@ -1036,22 +1106,11 @@ func (k *c15KeyGen) leaf() {
 	case kind < 60:
 		name = "header"
 		field := Pick(r, []string{"Subject", "subject", "X-Tag", "Received", "To", "X-Nope", "Date", "x-pm-gluon-id", "FROM"})
-		raw, ok := k.enc(k.needle())
+		raw, ok := k.enc(k.needleFor(field))
 		if !ok {
 			raw = []byte("foo")
 		}
-		d, dok := k.dec(raw)
-		if !dok {
-			k.dectab[c15HexOrTilde(raw)] = "!"
-		} else if string(d) != string(raw) {
-			k.dectab[c15HexOrTilde(raw)] = c15HexOrTilde(d)
-		}
-		k.kw("HEADER")
-		k.emit(" ")
-		k.astring([]byte(field))
-		k.emit(" ")
-		k.astring(raw)
-		k.keys = append(k.keys, "header:"+c15HexOrTilde([]byte(field))+":"+c15HexOrTilde(raw))
+		k.headerKeyWith(field, raw)
 	case kind < 74:
 		name = Pick(r, []string{"before", "on", "since", "sentbefore", "senton", "sentsince"})
 		k.dayKey(name)
@@ -1352,6 +1411,36 @@ func c15Short(s string) string {
 	})
 }
 
+var c15ReModelImpl = regexp.MustCompile(`model=ok:(\S+) impl=ok:(\S+)`)
+
+// c15AnswerDiff: the numbers that are in exactly one of the model's and the server's answer (at most three)
+func c15AnswerDiff(answer string) []int {
+	m := c15ReModelImpl.FindStringSubmatch(answer)
+	if m == nil {
+		return nil
+	}
+	in := map[int]int{}
+	for side, l := range m[1:] {
+		if l == "-" {
+			continue
+		}
+		for _, n := range strings.Split(l, ",") {
+			in[atoi(n)] |= 1 << side
+		}
+	}
+	var out []int
+	for n, sides := range in {
+		if sides != 3 {
+			out = append(out, n)
+		}
+	}
+	sort.Ints(out)
+	if len(out) > 3 {
+		out = out[:3]
+	}
+	return out
+}
+
 func runC15SearchOracle(args []string) int {
 	fs := flag.NewFlagSet("c15search", flag.ExitOnError)
 	seed := fs.Uint64("seed", 1, "")
@@ -1361,7 +1450,20 @@ func runC15SearchOracle(args []string) int {
 	n := fs.Int("n", 300, "searches")
 	per := fs.Int("per", 30, "searches per world")
 	dump := fs.Bool("dump", false, "print the first generated world script and exit")
+	dumpFolds := fs.Bool("dumpfolds", false, "print the `folds` scenarios of this seed and exit")
+	skipFolds := fs.Bool("skipfolds", false, "experiments: run without the directed `folds` scenarios (what do the generated worlds find alone?)")
 	_ = fs.Parse(args)
+	if *dumpFolds {
+		fmt.Println("oracle c15search")
+		// the same streams as in a run: the two `dates` worlds come first
+		dr := NewRng(*seed).Fork()
+		dr.Fork()
+		dr.Fork()
+		for k := 0; k < 2; k++ {
+			fmt.Println(strings.Join(genC15FoldWorld(dr.Fork(), k%2, map[string]int{}), "\n"))
+		}
+		return 0
+	}
 	if *dump {
 		fmt.Println("oracle c15search")
 		fmt.Println(strings.Join(genC15World(NewRng(*seed).Fork(), 1, *per, map[string]int{}), "\n"))
@@ -1437,6 +1539,24 @@ func runC15SearchOracle(args []string) int {
 				keep = append(keep, fmt.Sprintf("# message %d: %s", i+1, l))
 			}
 		}
+		if nm := len(w.msgLits); s != nil && nm > 4 {
+			// a large mailbox: show the messages the server and the model disagree about
+			f := strings.Fields(s.line)
+			for _, n := range c15AnswerDiff(s.answer) {
+				uid := n
+				if len(f) > 1 && f[1] != "uid" {
+					if n < 1 || n > len(w.view) {
+						continue
+					}
+					uid = w.view[n-1].UID
+				}
+				for i, m := range w.msgs {
+					if m.UID == uid && i < len(w.msgLits) {
+						keep = append(keep, fmt.Sprintf("# message %d (number %d of the answer): %s", i+1, n, w.msgLits[i]))
+					}
+				}
+			}
+		}
 		if s != nil {
 			keep = append(keep, s.line)
 			keep = append(keep, fmt.Sprintf("# command: %s", s.wire), fmt.Sprintf("# server:  %s", c15Short(s.impl)), fmt.Sprintf("# judge:   %s", c15Short(s.answer)))
@@ -1465,6 +1585,12 @@ func runC15SearchOracle(args []string) int {
 		}
 		mboxN++
 		w, err := runC15World(sys, fmt.Sprintf("w%d", mboxN), lines)
+		if err == nil && len(w.searches) > 0 && w.searches[len(w.searches)-1].impl == "lost" {
+			// a connection that went silent without a panic: a loaded machine or a hung server — the second run tells
+			res.Stats["worlds.rerun-after-lost-connection"]++
+			mboxN++
+			w, err = runC15World(sys, fmt.Sprintf("w%d", mboxN), lines)
+		}
 		for _, p := range sys.Panics.Take() {
 			res.Stats["stray-panic"]++
 			fmt.Fprintln(os.Stderr, "panic outside a search:", p)
@@ -1503,6 +1629,11 @@ func runC15SearchOracle(args []string) int {
 			jf := strings.Fields(w.searches[id.on].judge)
 			jl = append(jl, fmt.Sprintf("judge-c15-dayident %s %s %s %d %s %s %s", id.mode, jf[3], jf[4], id.day,
 				w.searches[id.on].impl, w.searches[id.nb].impl, w.searches[id.sb].impl))
+		}
+		// the header every message is claimed to have (fields and unfolded values as generated) against the header the
+		// Lean model derives from the stored literal (entry parser + mergeMultiline)
+		for _, m := range w.msgs {
+			jl = append(jl, fmt.Sprintf("judge-c15-hdr %s %s", m.hdrEnc(true), c15HexOrTilde(m.stored())))
 		}
 		ans, err := leanJudge(jl)
 		if err != nil || len(ans) != len(jl) {
@@ -1549,6 +1680,18 @@ func runC15SearchOracle(args []string) int {
 				report(w, s, kind, note)
 			} else if expect != "" && !strings.HasPrefix(s.answer, expect) {
 				report(w, s, "witness-"+label, "witness of Theorems/C15.lean no longer reproduces: expected "+expect)
+			}
+		}
+		for i, m := range w.msgs {
+			a := ans[len(w.searches)+len(w.idents)+i]
+			f := strings.Fields(a)
+			res.Stats["hdr-claim."+strings.Join(f[:min(2, len(f))], " ")]++
+			if strings.HasPrefix(a, "ok nontrivial") {
+				res.Evaluations++
+			}
+			if strings.HasPrefix(a, "violation") {
+				report(w, nil, "hdr-derivation", fmt.Sprintf("message %d (uid %d): the header fields / unfolded values the generator claims %s differ from what the Lean model (Search.hdrOfLiteral) derives from the stored literal: %s",
+					i+1, m.UID, m.hdrEnc(true), a))
 			}
 		}
 		for i, id := range w.idents {
@@ -1628,6 +1771,10 @@ func runC15SearchOracle(args []string) int {
 	for k := 0; k < 2; k++ {
 		runScript(genC15DateWorld(dr.Fork(), k%2, res.Stats), "", "")
 	}
+	// folded header fields: every kind of search string for every fold, on both servers
+	for k := 0; k < 2 && !*skipFolds; k++ {
+		runScript(genC15FoldWorld(dr.Fork(), k%2, res.Stats), "", "")
+	}
 	sizes := []int{131, 257}
 	if *n >= 3000 {
 		sizes = append(sizes, 263, 521, 1031)
@@ -1640,6 +1787,9 @@ func runC15SearchOracle(args []string) int {
 		wr := r.Fork()
 		if k%10 == 9 {
 			runScript(genC15DateWorld(wr.Fork(), (k/10)%2, res.Stats), "", "")
+		}
+		if k%10 == 4 && k > 10 && !*skipFolds {
+			runScript(genC15FoldWorld(wr.Fork(), (k/10)%2, res.Stats), "", "")
 		}
 		runScript(genC15World(wr, k%2, *per, res.Stats), "", "")
 	}
